@@ -3,7 +3,8 @@
 From Coq Require Import String List NArith ZArith Bool.
 From J5V.lib Require Import Outcome Json.
 From J5V.model Require Import CodecTypes CodecDecScalar CodecDec CodecDecQuery CodecDecTree.
-From J5V.proofs Require Import CodecDecProofs CodecDecExact CodecDecTreeProofs CodecDecFaults.
+From J5V.lib Require Base64.
+From J5V.proofs Require Import CodecDecProofs CodecDecExact CodecDecTreeProofs CodecDecFaults CodecDecStored CodecDecBase64 CodecDecVariants.
 Import ListNotations.
 Local Open Scope N_scope.
 
@@ -15,6 +16,39 @@ Theorem C03_int_exact : forall k lo hi v z,
   (exists s, (v = GStr s \/ v = GNum s) /\ denotes_int s z) /\ (lo <= z <= hi)%Z.
 Proof. exact int_exact. Qed.
 Print Assumptions C03_int_exact.
+
+(* ... against a reading of decimal notation that does not mention the parser: sign, digits,
+   positional value (Radix.of_digits_be) *)
+Theorem C03_decimal_reading : forall s z, parse_signed s = Some z <-> decimal_denotes s z.
+Proof. exact parse_signed_denotes. Qed.
+Print Assumptions C03_decimal_reading.
+
+Theorem C03_int_exact_decimal : forall k lo hi v z,
+  int_range k = Some (lo, hi) -> (exists s, v = GStr s \/ v = GNum s) ->
+  int_from_go k v = Ok (Some (VInt z)) ->
+  (exists s, (v = GStr s \/ v = GNum s) /\ decimal_denotes s z) /\ (lo <= z <= hi)%Z.
+Proof. exact int_exact_decimal. Qed.
+Print Assumptions C03_int_exact_decimal.
+
+Theorem C03_int_wrong_type_rejected : forall k lo hi,
+  int_range k = Some (lo, hi) ->
+  is_err (int_from_go k GNil) = true /\ forall b, is_err (int_from_go k (GBool b)) = true.
+Proof. exact int_wrong_type_rejected. Qed.
+Print Assumptions C03_int_wrong_type_rejected.
+
+(* floats and decimals: the quoted and the bare spelling of a text go through the same conversion,
+   whatever strconv.ParseFloat / decimal.NewFromString answer; bool and null are type errors *)
+Theorem C03_float_decimal_quoted_or_bare : forall orc k s,
+  k = KFloat32 \/ k = KFloat64 \/ k = KDecimal ->
+  scalar_from_go orc k (GStr s) = scalar_from_go orc k (GNum s).
+Proof. exact float_decimal_quoted_or_bare. Qed.
+Print Assumptions C03_float_decimal_quoted_or_bare.
+
+Theorem C03_float_wrong_type_rejected : forall orc k,
+  k = KFloat32 \/ k = KFloat64 ->
+  is_err (scalar_from_go orc k GNil) = true /\ forall b, is_err (scalar_from_go orc k (GBool b)) = true.
+Proof. exact float_wrong_type_rejected. Qed.
+Print Assumptions C03_float_wrong_type_rejected.
 
 (* lenient: every representable integer in canonical digits decodes to itself quoted and bare *)
 Theorem C03_int_quoted_or_bare : forall k lo hi z,
@@ -55,6 +89,26 @@ Theorem C03_wrong_type_rejected : forall orc,
 Proof. exact wrong_type_rejected. Qed.
 Print Assumptions C03_wrong_type_rejected.
 
+(* ------------------------------------------------------------------ bytes *)
+(* standard or URL-safe base64, with or without padding: for every byte string bs the four spellings
+   of base64(bs) — Base64.b64_encode is the encoder side's model of StdEncoding.EncodeToString — are
+   stored as bs *)
+Theorem C03_base64_four_spellings : forall orc bs, Forall is_byte bs ->
+  let e := Base64.b64_encode bs in
+  Forall (fun s => scalar_from_go orc KBytes (GStr s) = Ok (Some (VBytes bs)))
+         [e; strip_pad e; map std_to_url e; map std_to_url (strip_pad e)].
+Proof. exact bytes_field_four_spellings. Qed.
+Print Assumptions C03_base64_four_spellings.
+
+(* invalid base64: a character that is in neither alphabet (nor '=', CR, LF) is rejected wherever it stands *)
+Theorem C03_base64_foreign_char_rejected : forall s1 c s2,
+  CodecDecScalar.b64_val (CodecDecScalar.url_to_std c) = None -> is_crlf (CodecDecScalar.url_to_std c) = false ->
+  (CodecDecScalar.url_to_std c =? 61) = false ->
+  Forall (fun x => CodecDecScalar.b64_val (CodecDecScalar.url_to_std x) <> None) s1 ->
+  bytes_from_string (s1 ++ c :: s2) = None.
+Proof. exact base64_foreign_char_rejected. Qed.
+Print Assumptions C03_base64_foreign_char_rejected.
+
 (* ------------------------------------------------------------------ enums *)
 Theorem C03_enum_with_or_without_prefix : forall prefix opts name z,
   option_by_short opts name = Some z -> option_by_short opts (prefix ++ name) = None ->
@@ -79,6 +133,15 @@ Theorem C03_date_exact : forall s y m d,
   date_from_string s = Some (y, m, d) -> (0 <= y <= 9999 /\ 1 <= m <= 12 /\ 1 <= d <= days_in y m)%Z.
 Proof. exact date_exact. Qed.
 Print Assumptions C03_date_exact.
+
+(* the three numbers stored are the three numbers written *)
+Theorem C03_date_exact_strong : forall s y m d,
+  date_from_string s = Some (y, m, d) ->
+  exists a b c, split_on 45 s [] = [a; b; c] /\
+    decimal_denotes a y /\ decimal_denotes b m /\ decimal_denotes c d /\
+    (0 <= y <= 9999 /\ 1 <= m <= 12 /\ 1 <= d <= days_in y m)%Z.
+Proof. exact date_exact_strong. Qed.
+Print Assumptions C03_date_exact_strong.
 
 Theorem C03_date_invalid_rejected : forall s a b c y m d,
   split_on 45 s [] = [a; b; c] -> atoi a = Some y -> atoi b = Some m -> atoi c = Some d ->
@@ -195,6 +258,118 @@ Proof.
   eapply F_array_element with (v := JNull); [right; left; reflexivity | apply E_null].
 Qed.
 
+(* ------------------------------------------------------------------ documents: every non-null member is stored *)
+(* [props_separate] (proofs/CodecDecStored.v) is a condition on the schema alone: two different
+   properties of a set address proto fields on diverging paths (for the arms of an exposed oneof also:
+   the outer field is not one of the arm's oneof siblings).  Members of one unexposed proto oneof
+   satisfy it; that at most one of them is ever stored is the CreateField conflict check
+   (C03_oneof_sibling_rejected).  The condition is decidable (C03_separation_decidable) and the
+   correspondence evaluates it on every environment dumped from the real reflector. *)
+Theorem C03_separation_decidable : forall e props, props_separate_b e props = true -> props_separate e props.
+Proof. exact props_separate_b_sound. Qed.
+Print Assumptions C03_separation_decidable.
+
+(* JSONToProto succeeded on a document whose root the tokenizer reads as the object ms.  Then every
+   non-null member was decoded by the decoder of its own property (never skipped), and the field that
+   this decoding wrote has the same content in the final message: nothing that comes later in the
+   document disturbs it. *)
+Theorem C03_document_members_stored : forall orc e root props bs ms rest me m',
+  lookup e root = Some (SObject props) -> props_separate e props ->
+  lex bs = (tokens_of (JObj ms) ++ rest, me) ->
+  decode_bytes orc e root bs = Ok m' ->
+  forall key v p, In (key, v) ms -> v <> JNull -> find_prop props key = Some p -> p_path p <> [] ->
+  exists f0 m0 m1, tr_present orc e f0 1 p v m0 = Ok m1 /\ get_path (p_path p) m' = get_path (p_path p) m1.
+Proof. exact document_members_stored. Qed.
+Print Assumptions C03_document_members_stored.
+
+(* ... for a scalar member the field holds exactly the converted value (absent when the conversion
+   yields the zero value of an implicit-presence field) *)
+Theorem C03_document_scalars_stored : forall orc e root props bs ms rest me m',
+  lookup e root = Some (SObject props) -> props_separate e props ->
+  lex bs = (tokens_of (JObj ms) ++ rest, me) ->
+  decode_bytes orc e root bs = Ok m' ->
+  forall key v p k, In (key, v) ms -> v <> JNull -> find_prop props key = Some p ->
+    p_ty p = FScalar k -> p_path p <> [] ->
+    exists x, scalar_from_go orc k (goval_of_json v) = Ok x /\ get_path (p_path p) m' = stored_scalar p x.
+Proof. exact document_scalars_stored. Qed.
+Print Assumptions C03_document_scalars_stored.
+
+(* ... the same one level down: an object-typed member's field holds the message that decoding its
+   members produces (so the two theorems above apply to the sub-document, to any depth), and an
+   array-of-scalars member's field holds every element's converted value, in document order *)
+Theorem C03_object_member_own : forall orc e f d p ref v m m1,
+  p_ty p = FObject ref -> p_path p <> [] -> tr_present orc e f d p v m = Ok m1 ->
+  exists ms props sub0 sub' f', v = JObj ms /\ lookup e ref = Some (SObject props) /\
+    tr_object orc e f' d props ms sub0 [] = Ok sub' /\ get_path (p_path p) m1 = Some (VMsg sub').
+Proof. exact object_member_own. Qed.
+Print Assumptions C03_object_member_own.
+
+Theorem C03_nested_members_stored : forall orc e props, props_separate e props ->
+  forall f d ms m seen m', tr_object orc e f d props ms m seen = Ok m' ->
+  forall key v p, In (key, v) ms -> v <> JNull -> find_prop props key = Some p -> p_path p <> [] ->
+  exists f0 m0 m1, tr_present orc e f0 (d + 1) p v m0 = Ok m1 /\ get_path (p_path p) m' = get_path (p_path p) m1.
+Proof. exact member_survives. Qed.
+Print Assumptions C03_nested_members_stored.
+
+Theorem C03_array_member_own : forall orc e f d p k v m m1,
+  p_ty p = FArray (FScalar k) -> p_path p <> [] -> tr_present orc e f d p v m = Ok m1 ->
+  exists js l, v = JArr js /\ get_path (p_path p) m1 = stored_form true (VList l) /\
+    exists base vals, l = base ++ vals /\
+      Forall2 (fun j x => is_container j = false /\ scalar_from_go orc k (goval_of_json j) = Ok (Some x)) js vals.
+Proof. exact array_member_own. Qed.
+Print Assumptions C03_array_member_own.
+
+(* maps of scalars: every entry is stored under the key as written, in document order; arrays of
+   objects: one sub-message per element, each the decode of that element *)
+Theorem C03_map_entries_stored : forall orc e k f d ms acc l,
+  tr_map orc e f d (FScalar k) ms acc = Ok l ->
+  exists vals, l = acc ++ vals /\
+    Forall2 (fun kv kx => fst kx = fst kv /\ is_container (snd kv) = false /\
+                          scalar_from_go orc k (goval_of_json (snd kv)) = Ok (Some (snd kx))) ms vals.
+Proof. exact map_entries_stored. Qed.
+Print Assumptions C03_map_entries_stored.
+
+Theorem C03_array_objects_stored : forall orc e ref props, lookup e ref = Some (SObject props) ->
+  forall f d js acc l, tr_array orc e f d (FObject ref) js acc = Ok l ->
+  exists subs, l = acc ++ map VMsg subs /\
+    Forall2 (fun j sub => exists ms f', j = JObj ms /\ tr_object orc e f' d props ms [] [] = Ok sub) js subs.
+Proof. exact array_objects_stored. Qed.
+Print Assumptions C03_array_objects_stored.
+
+(* ------------------------------------------------------------------ documents: alternate spellings *)
+(* Leniency clause, at document level: [variant_members] (proofs/CodecDecVariants.v) relates two member
+   lists of the same shape — same keys in the same order, to any depth through objects, oneofs, arrays
+   and maps — whose leaves may differ, each pair of leaves being two spellings that the field kind's
+   conversion maps to the same result (which the scalar theorems establish for quoted / bare numbers,
+   the four base64 forms, ...; for enums: the same option).  Such documents decode to the same result:
+   the same message, or both an error. *)
+Theorem C03_respelled_documents_same_result : forall orc e root props bs bs' ms ms' rest rest' me me',
+  lookup e root = Some (SObject props) ->
+  lex bs = (tokens_of (JObj ms) ++ rest, me) -> lex bs' = (tokens_of (JObj ms') ++ rest', me') ->
+  variant_members orc e props ms ms' ->
+  decode_bytes orc e root bs = decode_bytes orc e root bs'.
+Proof. exact variant_documents_same_result. Qed.
+Print Assumptions C03_respelled_documents_same_result.
+
+(* {"i":"-7","r":["a"]} and {"i":-7,"r":["a"]} on ex_env-like properties *)
+Definition var_env : env :=
+  [([78], SObject [mkProp [105] [6] false false [] (FScalar KInt32);
+                   mkProp [114] [2] false false [] (FArray (FScalar KString))])].
+Definition var_doc1 : bytes := [123;34;105;34;58;34;45;55;34;44;34;114;34;58;91;34;97;34;93;125].
+Definition var_doc2 : bytes := [123;34;105;34;58;45;55;44;34;114;34;58;91;34;97;34;93;125].
+Example C03_example_respelled :
+  lex var_doc1 = (tokens_of (JObj [([105], JStr [45;55]); ([114], JArr [JStr [97]])]) ++ [], false) /\
+  lex var_doc2 = (tokens_of (JObj [([105], JNum [45;55]); ([114], JArr [JStr [97]])]) ++ [], false) /\
+  variant_members no_oracles var_env
+    [mkProp [105] [6] false false [] (FScalar KInt32); mkProp [114] [2] false false [] (FArray (FScalar KString))]
+    [([105], JStr [45;55]); ([114], JArr [JStr [97]])] [([105], JNum [45;55]); ([114], JArr [JStr [97]])] /\
+  decode_bytes no_oracles var_env [78] var_doc1 = Ok [(2, VList [VStr [97]]); (6, VInt (-7))].
+Proof.
+  split; [vm_compute; reflexivity|]. split; [vm_compute; reflexivity|]. split; [|vm_compute; reflexivity].
+  eapply VM_member; [reflexivity | reflexivity | split; discriminate | | apply VM_same; apply VM_nil].
+  apply V_scalar; [reflexivity | reflexivity | split; discriminate | vm_compute; reflexivity].
+Qed.
+
 (* ------------------------------------------------------------------ URL query parameters *)
 (* a scalar supplied as the single value of a query parameter is stored exactly as the JSON member
    carrying the corresponding token (the quoted string; for bool fields the literals true / false) *)
@@ -220,3 +395,54 @@ Example C03_example_enum_date :
   date_from_string [50;48;50;52;45;48;50;45;50;57] = Some (2024, 2, 29)%Z /\
   date_from_string [50;48;50;52;45;49;51;45;52;53] = None.
 Proof. vm_compute. repeat split; reflexivity. Qed.
+
+(* ------------------------------------------------------------------ the full statement, and where it stands *)
+(* The property's three sentences over the model, at document level (bytes in, message or error out):
+   exactness   every non-null member of an accepted document, at every depth, is decoded by its own
+               property's decoder and the field it wrote survives to the final message
+               (C03_document_members_stored + C03_nested_members_stored / C03_object_member_own for the
+               levels below; scalars: C03_document_scalars_stored with the per-kind value theorems);
+   rejection   a fault of any listed class at any position makes the document an error
+               (C03_fault_at_any_position_rejected);
+   leniency    documents that differ only by documented spellings of leaves, member order, whitespace
+               and explicit nulls decode to the same message.
+   Exactness and rejection are theorems above (exactness under the schema condition props_separate).
+   Leniency: documents of the same shape whose leaves are respelled in any combination decode to the
+   same result (C03_respelled_documents_same_result), the leaf facts being the scalar theorems
+   (integers, floats, decimals quoted or bare; the four base64 forms; enum prefix); explicit null
+   members are skipped (C03_null_member_skipped, member level).  NOT proved: timestamps at different
+   offsets denote the same instant (time.Parse is uninterpreted), member reordering, insignificant
+   whitespace, and null-padding lifted to whole documents: direct oracle and correspondence only. *)
+Definition C03_exactness_statement : Prop :=
+  forall orc e root props bs ms rest me m',
+    lookup e root = Some (SObject props) -> props_separate e props ->
+    lex bs = (tokens_of (JObj ms) ++ rest, me) -> decode_bytes orc e root bs = Ok m' ->
+    forall key v p, In (key, v) ms -> v <> JNull -> find_prop props key = Some p -> p_path p <> [] ->
+    exists f0 m0 m1, tr_present orc e f0 1 p v m0 = Ok m1 /\ get_path (p_path p) m' = get_path (p_path p) m1.
+Definition C03_rejection_statement : Prop :=
+  forall orc e root bs ms rest me,
+    lex bs = (tokens_of (JObj ms) ++ rest, me) ->
+    (exists props, lookup e root = Some (SObject props) /\ faulty_members orc e props ms) \/
+    (exists props, lookup e root = Some (SOneof props) /\ faulty_oneof orc e props ms) ->
+    is_err (decode_bytes orc e root bs) = true.
+Theorem C03_exactness_and_rejection : C03_exactness_statement /\ C03_rejection_statement.
+Proof. exact (conj document_members_stored faulty_document_rejected). Qed.
+Print Assumptions C03_exactness_and_rejection.
+
+(* non-vacuity of the exactness theorems: {"r":["a","b"],"c":{"r":["x"]}} on pos_env *)
+Definition ok_doc : bytes :=
+  [123;34;114;34;58;91;34;97;34;44;34;98;34;93;44;34;99;34;58;123;34;114;34;58;91;34;120;34;93;125;125].
+Definition ok_tree : jvalue :=
+  JObj [([114], JArr [JStr [97]; JStr [98]]); ([99], JObj [([114], JArr [JStr [120]])])].
+Example C03_example_members_stored :
+  lex ok_doc = (tokens_of ok_tree ++ [], false) /\
+  props_separate pos_env
+    [mkProp [114] [2] false false [] (FArray (FScalar KString)); mkProp [99] [5] false true [] (FObject [78])] /\
+  decode_bytes no_oracles pos_env [78] ok_doc =
+    Ok [(2, VList [VStr [97]; VStr [98]]); (5, VMsg [(2, VList [VStr [120]])])].
+Proof.
+  split; [vm_compute; reflexivity|]. split; [|vm_compute; reflexivity].
+  intros q1 q2 H1 H2 Hne Hq.
+  destruct H1 as [<- | [<- | []]]; destruct H2 as [<- | [<- | []]]; cbn in Hne; try discriminate;
+    cbn; (split; [discriminate | intros []]).
+Qed.
